@@ -76,6 +76,7 @@ CopyExact(H) == StripHist(CopyHist(H)) = StripHist(H)
 (*   [s, e]   first byte and one past the last byte (the redundant length included)                     *)
 (*   h        one past the transaction header incl. user/description/extension                          *)
 (*   deps     byte ranges <<lo, hi>> of the earlier records its back-pointers lead through              *)
+(*   dtx      the earlier transactions (indexes) its back-pointer records name as data_txn              *)
 (* size is the length of the file (smaller than the last e after a truncation); [lo, hi) is the damaged *)
 (* byte range (lo = hi: none; a truncation at p is size = p with [p, old size) damaged).                *)
 Ovl(a, b, lo, hi) == lo < hi /\ a < hi /\ lo < b            \* [a, b) meets [lo, hi)
